@@ -159,6 +159,28 @@ Proof.
   split; apply (@link_perm T K); [apply Permutation_sym; exact Hperm|exact Hperm].
 Qed.
 
+(* what each of the three loops establishes before the final sort + relabel pass:
+   its raw steps are a trace of weak reciprocal-nearest-neighbour merges *)
+Definition single_trace (M0 : cmat T) (n0 : nat) (d' : dend T) : Prop :=
+  exists (u u' : ufind) (d1 : dend T),
+    (FInv n0 d1 [] \/ (exists L, FInv n0 d1 L)) /\ length (d_steps d1) = n0 - 1
+    /\ sltrace ltb (cell_or (f_inf F) M0) (seq 0 n0) Leaf (d_steps d1)
+    /\ relabel (k_ltb K) (k_eqb K) u d1 true = Ok (u', d').
+
+Definition cuts_stmt (M0 : cmat T) (d' : dend T) : Prop :=
+  length (heights d') = m_obs M0 - 1 /\
+  forall (t : T) (j : nat), j <= m_obs M0 - 1 -> cut_at K t j (heights d') ->
+  forall x y, x < m_obs M0 -> y < m_obs M0 ->
+    (labi (m_obs M0) (d_steps d') j x = labi (m_obs M0) (d_steps d') j y
+     <-> conn ltb (cell_or (f_inf F) M0) (seq 0 (m_obs M0)) t x y).
+
+Lemma cuts_of_single_trace (M0 : cmat T) (d' : dend T) : 1 <= m_obs M0 ->
+  single_trace M0 (m_obs M0) d' -> cuts_stmt M0 d'.
+Proof.
+  intros Hn (u & u' & d1 & HF & Hlen & Htr & Hrel).
+  exact (@cuts_of_trace M0 (m_obs M0) u u' d1 d' Hn HF Hlen Htr Hrel).
+Qed.
+
 (* ---- whole runs ---- *)
 Lemma sq_single (m : list T) : square_all K m = m.
 Proof. unfold square_all. cbn [kops_of k_sq on_squares]. apply map_id. Qed.
@@ -195,15 +217,11 @@ Proof.
   split; [exact I|]. split; [intros x y _ _ Hxy Heq; exact (Hxy Heq)|rewrite seq_length; reflexivity].
 Qed.
 
-Theorem primitive_single_cuts s d m n s' d' m' M0 :
+Theorem primitive_single_trace s d m n s' d' m' M0 :
   primitive_with K p Single s d m n = Ok (s', d', m') ->
   prologue p m n = Ok M0 ->
   1 <= m_obs M0 ->
-  length (heights d') = m_obs M0 - 1 /\
-  forall (t : T) (j : nat), j <= m_obs M0 - 1 -> cut_at K t j (heights d') ->
-  forall x y, x < m_obs M0 -> y < m_obs M0 ->
-    (labi (m_obs M0) (d_steps d') j x = labi (m_obs M0) (d_steps d') j y
-     <-> conn ltb (cell_or (f_inf F) M0) (seq 0 (m_obs M0)) t x y).
+  single_trace M0 (m_obs M0) d'.
 Proof.
   intros H HM0 Hn1.
   unfold primitive_with in H. rewrite sq_single, HM0 in H. cbn [bind] in H.
@@ -219,19 +237,21 @@ Proof.
     as (news & Hs & Hln & Htr).
   cbn [d_reset d_steps app] in Hs.
   destruct (@prim_fold_forest T K p ltb_trans ltb_irrefl Single n0 _ _ _ _ _ _ _ _ HP0 (finv_init d n0) (seq_NoDup _ _) Fp) as (L' & HF & _).
-  apply (@cuts_of_trace M0 n0 (st_set s1) u d1 d2 ltac:(lia) (or_intror (ex_intro _ L' HF)) ltac:(rewrite Hs; exact Hln)
-           ltac:(rewrite Hs; exact Htr) E).
+  exists (st_set s1), u, d1. split; [right; exists L'; exact HF|]. split; [rewrite Hs; exact Hln|].
+  split; [rewrite Hs; exact Htr|exact E].
 Qed.
 
-Theorem nnchain_single_cuts s d m n s' d' m' M0 :
+Theorem primitive_single_cuts s d m n s' d' m' M0 :
+  primitive_with K p Single s d m n = Ok (s', d', m') ->
+  prologue p m n = Ok M0 ->
+  1 <= m_obs M0 -> cuts_stmt M0 d'.
+Proof. intros H HM0 Hn. exact (@cuts_of_single_trace M0 d' Hn (@primitive_single_trace s d m n s' d' m' M0 H HM0 Hn)). Qed.
+
+Theorem nnchain_single_trace s d m n s' d' m' M0 :
   nnchain_with K p Single s d m n = Ok (s', d', m') ->
   prologue p m n = Ok M0 ->
   1 <= m_obs M0 ->
-  length (heights d') = m_obs M0 - 1 /\
-  forall (t : T) (j : nat), j <= m_obs M0 - 1 -> cut_at K t j (heights d') ->
-  forall x y, x < m_obs M0 -> y < m_obs M0 ->
-    (labi (m_obs M0) (d_steps d') j x = labi (m_obs M0) (d_steps d') j y
-     <-> conn ltb (cell_or (f_inf F) M0) (seq 0 (m_obs M0)) t x y).
+  single_trace M0 (m_obs M0) d'.
 Proof.
   intros H HM0 Hn1.
   unfold nnchain_with in H. rewrite sq_single, HM0 in H. cbn [bind] in H.
@@ -261,9 +281,15 @@ Proof.
   rewrite Fc in H. cbn [bind] in H.
   bind_inv H. destruct a as [u d2]. inversion H; subst s' d' m'. clear H.
   rewrite sqrt_all_single in *. cbn [d_reset d_steps app] in Hs.
-  apply (@cuts_of_trace M0 n0 (st_set s1) u d1 d2 ltac:(lia) (or_intror (ex_intro _ L' HF)) ltac:(rewrite Hs; exact Hln)
-           ltac:(rewrite Hs; exact Htr) E).
+  exists (st_set s1), u, d1. split; [right; exists L'; exact HF|]. split; [rewrite Hs; exact Hln|].
+  split; [rewrite Hs; exact Htr|exact E].
 Qed.
+
+Theorem nnchain_single_cuts s d m n s' d' m' M0 :
+  nnchain_with K p Single s d m n = Ok (s', d', m') ->
+  prologue p m n = Ok M0 ->
+  1 <= m_obs M0 -> cuts_stmt M0 d'.
+Proof. intros H HM0 Hn. exact (@cuts_of_single_trace M0 d' Hn (@nnchain_single_trace s d m n s' d' m' M0 H HM0 Hn)). Qed.
 
 (* ---- generic ---- *)
 Section Generic.
@@ -322,16 +348,12 @@ Proof.
     apply sl_cons; try assumption. exact (@sl_of_weak M0 s M L mem a b v HW Ha Hb Hfar).
 Qed.
 
-Theorem generic_single_cuts s d m n s' d' m' M0 :
+Theorem generic_single_trace s d m n s' d' m' M0 :
   Forall (fun v => f_ltb F v (f_inf F) = true) m ->
   generic_with K p Single s d m n = Ok (s', d', m') ->
   prologue p m n = Ok M0 ->
   1 <= m_obs M0 ->
-  length (heights d') = m_obs M0 - 1 /\
-  forall (t : T) (j : nat), j <= m_obs M0 - 1 -> cut_at K t j (heights d') ->
-  forall x y, x < m_obs M0 -> y < m_obs M0 ->
-    (labi (m_obs M0) (d_steps d') j x = labi (m_obs M0) (d_steps d') j y
-     <-> conn ltb (cell_or (f_inf F) M0) (seq 0 (m_obs M0)) t x y).
+  single_trace M0 (m_obs M0) d'.
 Proof.
   intros Hall H HM0 Hn1.
   unfold generic_with in H. rewrite sq_single, HM0 in H. cbn [bind] in H.
@@ -360,9 +382,16 @@ Proof.
   rewrite Fg in H. cbn [bind] in H.
   bind_inv H. destruct a as [u d2]. inversion H; subst s' d' m'. clear H.
   rewrite sqrt_all_single in *. cbn [d_reset d_steps app] in Hs.
-  apply (@cuts_of_trace M0 n0 (st_set s2) u d1 d2 ltac:(lia) (or_intror (ex_intro _ L' HF)) ltac:(rewrite Hs; exact Hln)
-           ltac:(rewrite Hs; exact Htr) E).
+  exists (st_set s2), u, d1. split; [right; exists L'; exact HF|]. split; [rewrite Hs; exact Hln|].
+  split; [rewrite Hs; exact Htr|exact E].
 Qed.
+
+Theorem generic_single_cuts s d m n s' d' m' M0 :
+  Forall (fun v => f_ltb F v (f_inf F) = true) m ->
+  generic_with K p Single s d m n = Ok (s', d', m') ->
+  prologue p m n = Ok M0 ->
+  1 <= m_obs M0 -> cuts_stmt M0 d'.
+Proof. intros Hall H HM0 Hn. exact (@cuts_of_single_trace M0 d' Hn (@generic_single_trace s d m n s' d' m' M0 Hall H HM0 Hn)). Qed.
 
 End Generic.
 
